@@ -99,15 +99,27 @@ def check(ctx):
     if os.environ.get("X05_KF_OFF"):           # self-test of the deviation's narrowness: with the switch off the same traces must be violations
         sw = {k: False for k in sw}
     # ---------------------------------------------------------------- (a) model checking of the design module
-    mc = ["free_quick", "free2_quick", "fix_quick", "live"] if quick else ["free_thorough", "free2_thorough", "refresh", "fix_thorough", "live"]
+    import time
+    t_phase = time.time()
+    mc = ["free_quick", "free2_quick"] if quick else ["free_thorough", "free2_thorough", "refresh", "fix_thorough", "live"]
+    kf_states = 0
     for name in mc:
-        c.tlc_must_pass(ctx, name, "RemoteLc.tla", "RemoteLc_%s.cfg" % name, timeout=3000)
-    # the model of the code as it is must exhibit the finding (informational, like the *_snapshot configs of other areas)
-    res = c.tlc(os.path.join(c.SPEC, "RemoteLc.tla"), os.path.join(c.SPEC, "mc", "RemoteLc_asis_noextra.cfg"), ctx.path("tlc-asis"),
-                keep_log=ctx.path("tlc-asis.log"), timeout=3000)
-    ctx.extra["model_as_is_lists_removed_lifecycle"] = (res.violation == "NoExtra")
-    if res.violation != "NoExtra":
-        raise c.ToolError("RemoteLc_asis_noextra.cfg: expected the NoExtra counterexample of the known finding, got %s" % res.violation)
+        res = c.tlc_must_pass(ctx, name, "RemoteLc.tla", "RemoteLc_%s.cfg" % name, timeout=3000)
+        kf_states += len(res.printed.get("KFHIT", []))
+    if quick:
+        # vacuity: the quick model-checking config must reach idle states with an entry in excess (the known finding's shape)
+        ctx.extra["model_idle_states_with_removed_lifecycle_listed"] = kf_states
+        if kf_states == 0:
+            raise c.ToolError("vacuity: RemoteLc_free_quick.cfg reaches no idle state with a lifecycle listed in excess")
+    else:
+        # the model of the code as it is must exhibit the finding (informational, like the *_snapshot configs of other areas)
+        res = c.tlc(os.path.join(c.SPEC, "RemoteLc.tla"), os.path.join(c.SPEC, "mc", "RemoteLc_asis_noextra.cfg"), ctx.path("tlc-asis"),
+                    keep_log=ctx.path("tlc-asis.log"), timeout=3000)
+        ctx.extra["model_as_is_violates_NoExtra"] = (res.violation == "NoExtra")
+        if res.violation != "NoExtra":
+            raise c.ToolError("RemoteLc_asis_noextra.cfg: expected the NoExtra counterexample of the known finding, got %s" % res.violation)
+    ctx.extra["wall_model_checking_s"] = round(time.time() - t_phase, 1)
+    t_phase = time.time()
     # ---------------------------------------------------------------- (b) scenario emission
     emits = ["emit_1ecu3", "emit_2ecu3"] if quick else ["emit_1ecu4", "emit_1ecu5", "emit_2ecu4"]
     groups = collections.OrderedDict()      # inputs -> {"alts": {json: pred}, "ks": set}
@@ -134,6 +146,8 @@ def check(ctx):
                 ncases_tlc += 1
     if not quick and kf_predicted == 0:
         raise c.ToolError("vacuity: no emitted behaviour exhibits the known finding (the model should)")
+    ctx.extra["wall_emission_s"] = round(time.time() - t_phase, 1)
+    t_phase = time.time()
     # ---------------------------------------------------------------- (c,d) replay on the real binary + random files
     trace = ctx.path("trace.ndjson")
     nrand = 60 if quick else 500
@@ -145,8 +159,11 @@ def check(ctx):
     info = drive(binp, args)
     if info["replayed"] != ncases_tlc:
         raise c.ToolError("replay incomplete: %s of %s" % (info["replayed"], ncases_tlc))
+    ctx.extra["wall_driver_s"] = round(time.time() - t_phase, 1)
+    t_phase = time.time()
     # ---------------------------------------------------------------- (e) TLC validates every recorded run against the contract
     v = validate_chunked(ctx, "x05", trace, sw)
+    ctx.extra["wall_trace_validation_s"] = round(time.time() - t_phase, 1)
     cases = c.split_cases(trace)
     # ---------------------------------------------------------------- evidence
     ctx.evaluations = info["cases"]
